@@ -622,6 +622,12 @@ func (b *EndpointBuilder) filterIstioEndpoint(ep *model.IstioEndpoint) bool {
 	if len(ep.Addresses) == 0 && (!b.gateways().IsMultiNetworkEnabled() || b.proxy.InNetwork(ep.Network)) {
 		return false
 	}
+	// An unknown address may also be a single empty one (a WorkloadEntry that only names its network). With
+	// network gateways EndpointsByNetworkFilter replaces it by a gateway or drops it; without any gateway
+	// that filter is not applied, and nothing can stand for the endpoint.
+	if len(ep.Addresses) > 0 && ep.Addresses[0] == "" && !b.gateways().IsMultiNetworkEnabled() {
+		return false
+	}
 	// Filter out unhealthy endpoints, unless the service needs them.
 	// This is used to let envoy know about the amount of health endpoints in a cluster.
 	// This is used to let envoy know about the amount of health endpoints in a cluster.
